@@ -1,5 +1,8 @@
 import FitProps.EndToEndLemmas
 import FitProps.EndToEndDescLemmas
+import FitProps.EndToEndBackLemmas
+import FitProps.EndToEndStrictLemmas
+import FitModel.ValidatorArith
 /-!
 # C01 — Encode then decode returns the messages that were written (END TO END: protocol values, the real validator)
 
@@ -18,12 +21,20 @@ model returns the interpretation of the same items), the C06 lemmas at the value
 `reread_eq_normal`), and the agreement of encoder and decoder on timestamps (`ts_marshal`) and field descriptions
 (`desc_sync`). Lemmas: FitProps/EndToEnd*Lemmas.lean.
 
-PROPERTY THEOREMS: C01_e2e_actual, C01_e2e_roundtrip_partial, C01_e2e_reencode_partial, C01_e2e_full_fails_arr,
-C01_e2e_full_fails_zero, C01_e2e_full_fails_fffd, C01_e2e_reencode_boolarr_roundtrip, C01_e2e_value_independent_of_byte_order
+PROPERTY THEOREMS: C01_e2e_actual, C01_e2e_roundtrip_partial, C01_e2e_reencode_partial, C01_e2e_retained,
+C01_e2e_dec_output_normal, C01_e2e_reencode, C01_e2e_reencode_normal, C01_e2e_full_fails_arr, C01_e2e_full_fails_zero,
+C01_e2e_full_fails_fffd, C01_e2e_reencode_fails_undersized, C01_e2e_reencode_fails_pieces, C01_e2e_reencode_fails_f64dev,
+C01_e2e_reencode_boolarr_roundtrip, C01_e2e_value_independent_of_byte_order, C01_e2e_roundtrip_strict_partial,
+C01_e2e_full_fails_emptystr, C01_e2e_norm_bool_witness, C01_e2e_actual_exact, C01_e2e_roundtrip_exact_partial
 
 Findings of the pinned tree (open, see known_findings.jsonl): KF-C01-arr (F03), KF-C01-zero (F04), KF-C01-fffd (F02): the
 full statement `C01_e2e_roundtrip_full` is false on them (`C01_e2e_full_fails_*`); `C01_e2e_roundtrip_partial` excludes
 exactly these three classes, `C01_e2e_actual` says what the code returns on ALL accepted inputs, the classes included.
+The last sentence of the property (re-encoding what a decoder returned) is `C01_e2e_reencode`, a theorem about the output of
+`decodeChain` on ARBITRARY bytes (lemmas: FitProps/EndToEndBack*Lemmas.lean: the shape of `UnmarshalValue`'s answers, an
+invariant of the decoder-API model over all byte streams, `C10_validate_filter` on decoded messages); it excludes three
+classes of decoder output — KF-C01-undersized, KF-C01-strpieces, KF-C01-f64dev — on which `C01_e2e_reencode_full` is false
+(`C01_e2e_reencode_fails_*`); in the first two only the scalar/array shape of a value differs (`C01_e2e_reencode_normal`).
 -/
 namespace Fit.C01
 open Fit.E2E Fit.Wire Fit.Msg Fit.Value
@@ -73,6 +84,28 @@ theorem C01_e2e_actual (c : Cfg) (o : Fit.DecApi.Opts) (files : List FileIn) (ke
   rw [filesOf_snd c files kepts hlen] at this
   exact this
 
+/-- **END TO END, DETERMINISTIC (audit C01-5: the theorem pins the order).** Under the hypotheses of `C01_e2e_actual`:
+decoding the bytes returns EXACTLY `actualSeq` of what validation retained, file by file — `seqBack reread`, which threads
+the encoder's two timestamps (`Wire.compressTs`: reference and last timestamp, fresh per file) and puts the timestamp of a
+message in front if and only if the encoder moved it into a compressed-timestamp header; never when the header option is
+normal. `C01_e2e_actual` ("as it is or with its first timestamp in front") is the weaker form. Proved by carrying the
+encoder's decision through the wire-level round trip (`encodeMsgs_roundtripF_exact`, `good_items_exact`). -/
+theorem C01_e2e_actual_exact (c : Cfg) (o : Fit.DecApi.Opts) (files : List FileIn) (kepts : List (List Message)) (bytes : List Nat)
+    (henc : encodeChain c files 0 = (kepts, bytes, none)) (hne : files ≠ [])
+    (hc : CfgOK c files) (ho : PlainOpts o) (hdom : ∀ kept ∈ kepts, inDomain o.fac kept = true)
+    (hsmall : bytes.length < 4294967296) :
+    decodeValues o bytes = (kepts.map (actualSeq o.fac c.w), none) := by
+  obtain ⟨fits, h1, h2, _⟩ := e2e_chain c o files kepts bytes henc hne hc ho hdom hsmall
+  obtain ⟨hlen, _, _⟩ := encodeChain_ok c files 0 kepts bytes henc
+  simp only [decodeValues, h1, Prod.mk.injEq, and_true]
+  have : ∀ (fl : List (Wire.Hdr × List Message)) (ft : List Fit.DecApi.Fit), AllMatch (FitMatch o c.w) fl ft →
+      ft.map (fun f => f.msgs.map proj) = (fl.map (·.2)).map (actualSeq o.fac c.w) := by
+    intro fl ft hm
+    induction hm with
+    | nil => rfl
+    | cons hab _ ih => simp only [List.map_cons, ih, hab.2.2.2.2]
+  rw [this _ _ h2, filesOf_snd c files kepts hlen]
+
 /-- no field / developer field of the retained messages is in one of the three finding classes -/
 def noKF (fac : Fit.DecApi.Factory) (kept : List Message) : Bool :=
   !kfZero fac kept && !kfArr fac kept && !kfFFFD fac kept
@@ -115,6 +148,27 @@ theorem C01_e2e_roundtrip_partial (c : Cfg) (o : Fit.DecApi.Opts) (files : List 
   rw [filesOf_snd c files kepts hlen] at this
   exact this
 
+/-- **… and outside the three finding classes it is exactly the normal form**: `normalSeq` (deterministic), not merely one of
+the allowed forms. This is the equation the driver evaluates on the implementation's answer of every `rte2e` line
+(`fail:timestamp-placement`). -/
+theorem C01_e2e_roundtrip_exact_partial (c : Cfg) (o : Fit.DecApi.Opts) (files : List FileIn) (kepts : List (List Message))
+    (bytes : List Nat) (henc : encodeChain c files 0 = (kepts, bytes, none)) (hne : files ≠ [])
+    (hc : CfgOK c files) (ho : PlainOpts o) (hdom : ∀ kept ∈ kepts, inDomain o.fac kept = true)
+    (hsmall : bytes.length < 4294967296) (hkf : ∀ kept ∈ kepts, noKF o.fac kept = true) :
+    decodeValues o bytes = (kepts.map (normalSeq o.fac c.w), none) := by
+  rw [C01_e2e_actual_exact c o files kepts bytes henc hne hc ho hdom hsmall]
+  obtain ⟨_, _, _, h3⟩ := e2e_chain c o files kepts bytes henc hne hc ho hdom hsmall
+  obtain ⟨hlen, _, _⟩ := encodeChain_ok c files 0 kepts bytes henc
+  congr 1
+  apply List.map_congr_left
+  intro kept hk
+  have hk' : kept ∈ (filesOf c files kepts).map (·.2) := by rw [filesOf_snd c files kepts hlen]; exact hk
+  obtain ⟨file, hfile, rfl⟩ := List.mem_map.mp hk'
+  have hf := h3 file hfile
+  have hcl := hkf _ hk
+  simp only [noKF, Bool.and_eq_true, Bool.not_eq_true'] at hcl
+  exact seqBack_normal o.fac c.w file.2 {} hf.keptOK hf.dom hcl.1.1 hcl.1.2 hcl.2
+
 theorem seqMatches_literal (fac : Fit.DecApi.Factory) (arch : Nat) : ∀ (kept : List Message) (vst : Fit.Validator.State)
     (ns : List NMsg), seqNormal fac arch vst kept = true → seqMatches normalValue false fac arch vst kept ns = true →
     seqMatches idValue false fac arch vst kept ns = true := by
@@ -153,31 +207,185 @@ theorem C01_e2e_reencode_partial (c : Cfg) (o : Fit.DecApi.Opts) (files : List F
     exact AllMatch.cons (seqMatches_literal o.fac c.w.arch a {} b (hnorm a (by simp)) hab)
       (ih (fun k hk => hnorm k (List.mem_cons_of_mem _ hk)))
 
-/-- the decoded sequences handed back to the encoder: one file per sequence, under the header the decoder returned -/
-def backFiles (fits : List Fit.DecApi.Fit) : List FileIn :=
-  fits.map fun f => { hsize := f.hdr.size, hpv := f.hdr.protoVer, hprofile := f.hdr.profileVer, msgs := f.msgs.map ofDecoded }
+/-! ### the last sentence of the property, about DECODER OUTPUT: "whenever the encoder accepts the messages the decoder
+returned for some input, encoding them and decoding again gives those same messages" -/
 
-/-- the last sentence of the property at full strength: for the messages the decoder returned for ANY input bytes -/
+/-- what the validator guarantees of each file of an accepted chain, and that it ran on the file's messages -/
+theorem gate_validateAll (c : Cfg) (f : FileIn) (kept : List Message) (h : gate c f = .ok kept) :
+    Fit.Validator.validateAll c.D c.vo {} f.msgs = .ok kept := by
+  simp only [gate] at h
+  split at h
+  · cases h
+  · simp only [Fit.Validator.gateBatch] at h
+    cases hpa : Fit.Validator.protoAll (fileVersion c f) f.msgs with
+    | panic => rw [hpa] at h; cases h
+    | err e => rw [hpa] at h; cases h
+    | ok u =>
+      rw [hpa] at h
+      simp only at h
+      cases hva : Fit.Validator.validateAll c.D c.vo {} f.msgs with
+      | error e => rw [hva] at h; cases h
+      | ok k =>
+        rw [hva] at h
+        simp only [Except.ok.injEq] at h
+        subst h; rfl
+
+/-- **WHAT VALIDATION RETAINS OF DECODER OUTPUT (the reading of "those same messages").** When the encoder accepts the
+sequences a decoder returned (`backFiles`: header members and messages as they are), what its message validator retained of
+each sequence is `Fit.E2E.retained`: every message, every field and developer field AS IT IS and in order, minus exactly the
+invalid-valued ones when invalid values are omitted (a field whose value is invalid for its base type; a developer field
+whose value is invalid for the base type of the first field description of its (index, number)) — nothing restored or
+converted — provided no float64-typed developer value meets a field description with scale / offset (class `kfF64Dev`,
+finding KF-C01-f64dev: there the validator rewrites the value). Holds for ANY list of decoded sequences (no hypothesis on
+where they come from). -/
+theorem C01_e2e_retained (c : Cfg) (fits : List Fit.DecApi.Fit) (kepts : List (List Message)) (bytes : List Nat)
+    (henc : encodeChain c (backFiles fits) 0 = (kepts, bytes, none))
+    (hR : ∀ f ∈ fits, kfF64Dev c.vo {} f.msgs = false) :
+    kepts = fits.map (fun f => retained c.vo.omitInvalid {} f.msgs) := by
+  obtain ⟨hlen, _, hgates⟩ := encodeChain_ok c (backFiles fits) 0 kepts bytes henc
+  have hlen' : kepts.length = fits.length := by simpa [backFiles] using hlen
+  apply List.ext_getElem (by simp [hlen'])
+  intro i h1 h2
+  simp only [List.getElem_map]
+  have hi : i < fits.length := by simpa using h2
+  have hmem : ((backFiles fits)[i]'(by simp [backFiles, hi]), kepts[i]) ∈ (backFiles fits).zip kepts := by
+    rw [List.mem_iff_getElem]
+    exact ⟨i, by simp [backFiles]; omega, by simp⟩
+  have hg := hgates _ hmem
+  have hva := gate_validateAll c _ _ hg
+  have hmsgs : ((backFiles fits)[i]'(by simp [backFiles, hi])).msgs = (fits[i]).msgs.map ofDecoded := by simp [backFiles]
+  rw [hmsgs] at hva
+  exact validateAll_retained c.D c.vo _ {} _ hva (hR _ (List.getElem_mem hi))
+
+/-- **DECODER OUTPUT IS IN WIRE-NORMAL FORM** (formerly the unproved `def C01_e2e_dec_output_normal`). For ARBITRARY input
+bytes (any stream; `e` = how the `Next` / `Decode` loop ended: the sequences returned before a later one failed are
+included), decoder with component expansion off and no listeners, a factory that reads field 253 as a plain uint32 where it
+knows it and knows the three key members of `field_description` (the standard factory): when the encoder accepts the returned
+sequences, what its validator retained of each (`C01_e2e_retained`) (i) meets the typing assumptions of the end-to-end
+theorems (`inDomain`: nothing is assumed about decoder output any more), (ii) lies outside the three finding classes of the
+forward direction (`noKF`), (iii) is in wire-normal form for the decoder's factory (`seqNormal`: every value is its own normal
+form under the flags it will be read with) — (iii) outside two explicit classes of decoder output: `kfUndersized` (a field
+the factory knows as an array, written with fewer bytes than one element: returned as a scalar) and `kfPieces` (a string
+field without profile entry / a developer string field whose bytes hold ≥ 2 non-empty segments of which < 2 survive the
+UTF-8 cleaning: returned as an array of < 2 strings). -/
+theorem C01_e2e_dec_output_normal (c : Cfg) (o : Fit.DecApi.Opts) (input : List Nat) (fits : List Fit.DecApi.Fit)
+    (e : Option Fit.DecApi.Out) (kepts : List (List Message)) (bytes : List Nat)
+    (hdec : decodeChain o input = (fits, e)) (henc : encodeChain c (backFiles fits) 0 = (kepts, bytes, none))
+    (hb : ∀ b ∈ input, b < 256) (ho : PlainOpts o) (hfac : facOKB o.fac = true) (hkeys : keysKnown o.fac = true)
+    (hR : ∀ f ∈ fits, kfF64Dev c.vo {} f.msgs = false) :
+    kepts = fits.map (fun f => retained c.vo.omitInvalid {} f.msgs) ∧
+    ∀ f ∈ fits, inDomain o.fac (retained c.vo.omitInvalid {} f.msgs) = true ∧
+      noKF o.fac (retained c.vo.omitInvalid {} f.msgs) = true ∧
+      (kfUndersized f.msgs = false → kfPieces f.msgs = false →
+        seqNormal o.fac c.w.arch {} (retained c.vo.omitInvalid {} f.msgs) = true) := by
+  have hret := C01_e2e_retained c fits kepts bytes henc hR
+  refine ⟨hret, ?_⟩
+  intro f hf
+  have hgood : ∀ m ∈ f.msgs, MsgGood o.fac m := by
+    have := decodeChain_good o input hb ho hfac f (by rw [hdec]; exact hf)
+    exact this
+  -- what acceptance guarantees of the retained messages
+  obtain ⟨hlen, _, hgates⟩ := encodeChain_ok c (backFiles fits) 0 kepts bytes henc
+  obtain ⟨i, hi, rfl⟩ := List.mem_iff_getElem.mp hf
+  have hk : KeptOK {} (retained c.vo.omitInvalid {} (fits[i]).msgs) := by
+    have h1 : i < kepts.length := by rw [hlen]; simp [backFiles, hi]
+    have hmem : ((backFiles fits)[i]'(by simp [backFiles, hi]), kepts[i]) ∈ (backFiles fits).zip kepts := by
+      rw [List.mem_iff_getElem]
+      exact ⟨i, by simp [backFiles]; omega, by simp⟩
+    have hva := gate_validateAll c _ _ (hgates _ hmem)
+    have hko := (keptOK_of_validateAll c.D c.vo _ {} _ hva).1
+    have : kepts[i] = retained c.vo.omitInvalid {} (fits[i]).msgs := by
+      have := congrArg (fun l => l[i]?) hret
+      simp only [List.getElem?_map, List.getElem?_eq_getElem h1, List.getElem?_eq_getElem hi, Option.map_some,
+        Option.some.injEq] at this
+      exact this
+    rw [← this]; exact hko
+  obtain ⟨d1, d2, d3, d4, d5⟩ := retained_good o.fac hfac hkeys c.w.arch c.vo.omitInvalid _ {} hgood hk
+  refine ⟨by rw [inDomain_eq, hfac, d1]; rfl, ?_, d5⟩
+  simp only [noKF, kfZero, kfArr, kfFFFD, d2, d3, d4, Bool.not_false, Bool.and_self]
+
+/-- **RE-ENCODING DECODER OUTPUT: THE LAST SENTENCE OF THE PROPERTY.** For ARBITRARY input bytes: whenever the encoder
+(any option combination, real validator model) accepts the sequences the decoder returned for them (`hdec`, `henc`), then —
+outside the three classes of decoder output named in the hypotheses `hR` (`kfF64Dev`), `hN` (`kfUndersized`, `kfPieces`),
+each an open finding with a kernel-evaluated witness below — (1) what validation retained is the decoded messages as they
+are minus their invalid-valued fields (`retained`), and (2) decoding the written bytes again returns, without error, one
+sequence per sequence whose messages are THOSE retained messages: same numbers and order, every field and developer field
+with the same number, base type and value AS IT IS (`idValue`: identical, not merely equivalent), each message with its
+first timestamp where it was or — when the encoder moved it into a compressed-timestamp header — in front.
+"Those same messages" is therefore read as: the messages the decoder returned, as far as message validation retained them;
+an invalid-valued field of a decoded message (e.g. the invalid sentinel, which decoders return like any other value) is not
+written by the default validator and is absent after the second decoding. Typing hypotheses only: `CfgOK`, `PlainOpts`
+(expansion off, no listeners), `facOKB` / `keysKnown` (the factory reads field 253 and the key members of field_description
+as the standard factory does), input bytes are bytes, the written stream is below 4 GiB. -/
+theorem C01_e2e_reencode (c : Cfg) (o : Fit.DecApi.Opts) (input : List Nat) (fits : List Fit.DecApi.Fit)
+    (e : Option Fit.DecApi.Out) (kepts : List (List Message)) (bytes : List Nat)
+    (hdec : decodeChain o input = (fits, e)) (hne : fits ≠ [])
+    (henc : encodeChain c (backFiles fits) 0 = (kepts, bytes, none))
+    (hc : CfgOK c (backFiles fits)) (hb : ∀ b ∈ input, b < 256) (ho : PlainOpts o) (hfac : facOKB o.fac = true)
+    (hkeys : keysKnown o.fac = true) (hsmall : bytes.length < 4294967296)
+    (hR : ∀ f ∈ fits, kfF64Dev c.vo {} f.msgs = false)
+    (hN : ∀ f ∈ fits, kfUndersized f.msgs = false ∧ kfPieces f.msgs = false) :
+    kepts = fits.map (fun f => retained c.vo.omitInvalid {} f.msgs) ∧
+    ∃ seqs, decodeValues o bytes = (seqs, none) ∧
+      AllMatch (fun kept ns => seqMatches idValue false o.fac c.w.arch {} kept ns = true) kepts seqs := by
+  obtain ⟨hret, hall⟩ := C01_e2e_dec_output_normal c o input fits e kepts bytes hdec henc hb ho hfac hkeys hR
+  refine ⟨hret, ?_⟩
+  have hk : ∀ kept ∈ kepts, ∃ f ∈ fits, kept = retained c.vo.omitInvalid {} f.msgs := by
+    intro kept hkm
+    rw [hret] at hkm
+    obtain ⟨f, hf, rfl⟩ := List.mem_map.mp hkm
+    exact ⟨f, hf, rfl⟩
+  have hne' : backFiles fits ≠ [] := by
+    intro h
+    have : (backFiles fits).length = 0 := by rw [h]; rfl
+    simp only [backFiles, List.length_map] at this
+    exact hne (List.eq_nil_of_length_eq_zero this)
+  exact C01_e2e_reencode_partial c o (backFiles fits) kepts bytes henc hne' hc ho
+    (fun kept hkm => by obtain ⟨f, hf, rfl⟩ := hk kept hkm; exact (hall f hf).1) hsmall
+    (fun kept hkm => by obtain ⟨f, hf, rfl⟩ := hk kept hkm; exact (hall f hf).2.1)
+    (fun kept hkm => by obtain ⟨f, hf, rfl⟩ := hk kept hkm; exact (hall f hf).2.2 (hN f hf).1 (hN f hf).2)
+
+/-- **… and in the two shape classes nothing is lost.** Without the hypothesis `hN`: also when a decoded field lies in
+`kfUndersized` / `kfPieces`, decoding the written bytes again returns the NORMAL FORM of the retained messages
+(`normalValue`): the same numbers / strings in the same order, a one-element array where the decoder first returned the
+scalar, the scalar string where it first returned a one-element string array. What differs from the first decoding in those
+classes is the shape of the value (scalar / array), never its content. -/
+theorem C01_e2e_reencode_normal (c : Cfg) (o : Fit.DecApi.Opts) (input : List Nat) (fits : List Fit.DecApi.Fit)
+    (e : Option Fit.DecApi.Out) (kepts : List (List Message)) (bytes : List Nat)
+    (hdec : decodeChain o input = (fits, e)) (hne : fits ≠ [])
+    (henc : encodeChain c (backFiles fits) 0 = (kepts, bytes, none))
+    (hc : CfgOK c (backFiles fits)) (hb : ∀ b ∈ input, b < 256) (ho : PlainOpts o) (hfac : facOKB o.fac = true)
+    (hkeys : keysKnown o.fac = true) (hsmall : bytes.length < 4294967296)
+    (hR : ∀ f ∈ fits, kfF64Dev c.vo {} f.msgs = false) :
+    kepts = fits.map (fun f => retained c.vo.omitInvalid {} f.msgs) ∧
+    ∃ seqs, decodeValues o bytes = (seqs, none) ∧
+      AllMatch (fun kept ns => seqMatches normalValue false o.fac c.w.arch {} kept ns = true) kepts seqs := by
+  obtain ⟨hret, hall⟩ := C01_e2e_dec_output_normal c o input fits e kepts bytes hdec henc hb ho hfac hkeys hR
+  refine ⟨hret, ?_⟩
+  have hk : ∀ kept ∈ kepts, ∃ f ∈ fits, kept = retained c.vo.omitInvalid {} f.msgs := by
+    intro kept hkm
+    rw [hret] at hkm
+    obtain ⟨f, hf, rfl⟩ := List.mem_map.mp hkm
+    exact ⟨f, hf, rfl⟩
+  have hne' : backFiles fits ≠ [] := by
+    intro h
+    have : (backFiles fits).length = 0 := by rw [h]; rfl
+    simp only [backFiles, List.length_map] at this
+    exact hne (List.eq_nil_of_length_eq_zero this)
+  exact C01_e2e_roundtrip_partial c o (backFiles fits) kepts bytes henc hne' hc ho
+    (fun kept hkm => by obtain ⟨f, hf, rfl⟩ := hk kept hkm; exact (hall f hf).1) hsmall
+    (fun kept hkm => by obtain ⟨f, hf, rfl⟩ := hk kept hkm; exact (hall f hf).2.1)
+
+/-- the last sentence at full strength: `C01_e2e_reencode` without the class hypotheses `hR`, `hN` -/
 def C01_e2e_reencode_full : Prop :=
-  ∀ (c : Cfg) (o : Fit.DecApi.Opts) (input : List Nat) (fits : List Fit.DecApi.Fit) (kepts : List (List Message)) (bytes : List Nat),
-    decodeChain o input = (fits, none) → fits ≠ [] → encodeChain c (backFiles fits) 0 = (kepts, bytes, none) →
-    CfgOK c (backFiles fits) → PlainOpts o → (∀ kept ∈ kepts, inDomain o.fac kept = true) → bytes.length < 4294967296 →
+  ∀ (c : Cfg) (o : Fit.DecApi.Opts) (input : List Nat) (fits : List Fit.DecApi.Fit) (e : Option Fit.DecApi.Out)
+    (kepts : List (List Message)) (bytes : List Nat),
+    decodeChain o input = (fits, e) → fits ≠ [] → encodeChain c (backFiles fits) 0 = (kepts, bytes, none) →
+    CfgOK c (backFiles fits) → (∀ b ∈ input, b < 256) → PlainOpts o → facOKB o.fac = true → keysKnown o.fac = true →
+    bytes.length < 4294967296 →
+    kepts = fits.map (fun f => retained c.vo.omitInvalid {} f.msgs) ∧
     ∃ seqs, decodeValues o bytes = (seqs, none) ∧
       AllMatch (fun kept ns => seqMatches idValue false o.fac c.w.arch {} kept ns = true) kepts seqs
-
-/-- what separates `C01_e2e_reencode_partial` from it: that what validation retains of the messages `Fit.DecApi` returns
-(for ANY input bytes, not only encoder output) carries values in wire-normal form and lies outside the finding classes.
-For encoder output it follows from `C01_e2e_actual` value by value (the example below evaluates an instance); for arbitrary
-input it needs an invariant of `decodeField` over all byte strings (a decoded value is aligned with the base type it is
-returned under, its array-ness is what the size implies) that the decoder-API lemma layer (C03: safety only) does not
-provide yet. At the value layer it holds for every base type and ANY bytes (`C06_unmarshal_reencode`: what
-`UnmarshalValue` returned re-marshals and reads back as itself). The one class that refuted it on the pinned tree — a
-profile-bool ARRAY field holding bytes other than 0 / 1 / 255, finding KF-C01-boolarr — was repaired in /repo 5da5106
-(`C01_e2e_reencode_boolarr_roundtrip`); no refuting class is known. -/
-def C01_e2e_dec_output_normal : Prop :=
-  ∀ (c : Cfg) (o : Fit.DecApi.Opts) (input : List Nat) (fits : List Fit.DecApi.Fit) (kepts : List (List Message)) (bytes : List Nat),
-    decodeChain o input = (fits, none) → encodeChain c (backFiles fits) 0 = (kepts, bytes, none) → PlainOpts o →
-    ∀ kept ∈ kepts, seqNormal o.fac c.w.arch {} kept = true ∧ noKF o.fac kept = true
 
 /-- the full-strength statement: the round trip to the normal form for EVERY accepted input of the domain -/
 def C01_e2e_roundtrip_full : Prop :=
@@ -251,6 +459,126 @@ theorem C01_e2e_full_fails_fffd : ¬ C01_e2e_roundtrip_full :=
     (encodeChain (kfCfg false) fffdFiles 0).2.1 [⟨0, [⟨8, 7, .string [0x61, 0x62]⟩], []⟩]
     (by decide +kernel) (by decide) (by decide) (by decide +kernel) (by decide +kernel)
     (by decide +kernel) (by decide +kernel)
+
+/-! ### the three classes of decoder output: witnesses on which the full statement fails (evaluated by the kernel) -/
+
+/-- hrv.time as a uint16 array, record.heart_rate, developer_data_id.developer_data_index, and the members of
+field_description the decoder and the validator read (as plain one-byte fields, like the standard factory) -/
+def wFac : Fit.DecApi.Factory :=
+  [⟨78, 0, ⟨true, 0x84, false, true, false, []⟩⟩, ⟨20, 3, ⟨true, 0x02, false, false, false, []⟩⟩,
+   ⟨207, 3, ⟨true, 0x02, false, false, false, []⟩⟩,
+   ⟨206, 0, ⟨true, 0x02, false, false, false, []⟩⟩, ⟨206, 1, ⟨true, 0x02, false, false, false, []⟩⟩,
+   ⟨206, 2, ⟨true, 0x02, false, false, false, []⟩⟩, ⟨206, 6, ⟨true, 0x02, false, false, false, []⟩⟩,
+   ⟨206, 7, ⟨true, 0x01, false, false, false, []⟩⟩]
+def wOpts : Fit.DecApi.Opts := { chk := true, exp := false, fac := wFac }
+
+/-- 12-byte header, definition of message 78 (hrv) with field 0 (time: a uint16 ARRAY) of size ONE byte, one record -/
+def inUndersized : List Nat :=
+  [0x0c, 0x20, 0x9a, 0x52, 0x0b, 0, 0, 0, 0x2e, 0x46, 0x49, 0x54, 0x40, 0, 0, 0x4e, 0, 1, 0, 1, 0x84, 0, 7, 0xd1, 0xbb]
+/-- message 65280 (no profile entry) with a string field of 4 bytes "a\0\xff\0" (two terminated segments, the second one
+not UTF-8) and a uint8 -/
+def inPieces : List Nat :=
+  [0x0c, 0x20, 0x9a, 0x52, 0x12, 0, 0, 0, 0x2e, 0x46, 0x49, 0x54, 0x40, 0, 0, 0, 0xff, 0x02, 0x01, 0x04, 0x07, 0x02, 0x01, 0x02,
+   0x00, 0x61, 0x00, 0xff, 0x00, 0x01, 0x03, 0x14]
+/-- developer_data_id 0; field_description (index 0, number 1, base type float64, scale 2, offset 0); a record with
+heart_rate 70 and that developer field = 1.5 -/
+def inF64 : List Nat :=
+  [0x0e, 0x20, 0x9a, 0x52, 0x3d, 0, 0, 0, 0x2e, 0x46, 0x49, 0x54, 0x9d, 0x36, 0x40, 0, 0, 0xcf, 0, 1, 3, 1, 2, 0, 0,
+   0x41, 0, 0, 0xce, 0, 5, 0, 1, 2, 1, 1, 2, 2, 1, 2, 6, 1, 2, 7, 1, 1, 1, 0, 1, 0x89, 2, 0,
+   0x62, 0, 0, 0x14, 0, 1, 3, 1, 2, 1, 1, 8, 0, 2, 0x46, 0, 0, 0, 0, 0, 0, 0xf8, 0x3f, 0xe8, 0x1b]
+/-- the validator with the real arithmetic of `scaleoffset.DiscardValue` (the binary64 model of C12) -/
+def cfgArith : Cfg := { kfCfg false with D := Fit.ValidatorA.D }
+
+theorem wOpts_plain : PlainOpts wOpts := ⟨rfl, rfl, rfl, rfl⟩
+
+/-- what the full statement would demand of an input whose decoding, re-encoding and second decoding the kernel evaluated -/
+theorem reencode_fails_of (c : Cfg) (input : List Nat) (fits : List Fit.DecApi.Fit) (kept : List Message) (bytes : List Nat)
+    (seq : List NMsg) (hdec : decodeChain wOpts input = (fits, none)) (hne : fits ≠ [])
+    (henc : encodeChain c (backFiles fits) 0 = ([kept], bytes, none)) (hc : CfgOK c (backFiles fits))
+    (hb : ∀ b ∈ input, b < 256) (hsmall : bytes.length < 4294967296)
+    (hdec2 : decodeValues wOpts bytes = ([seq], none))
+    (hbad : ([kept] == fits.map (fun f => retained c.vo.omitInvalid {} f.msgs) && seqMatches idValue false wFac c.w.arch {} kept seq) = false) :
+    ¬ C01_e2e_reencode_full := by
+  intro h
+  obtain ⟨h0, seqs, h1, h2⟩ := h c wOpts input fits none [kept] bytes hdec hne henc hc hb wOpts_plain (by decide +kernel)
+    (by decide +kernel) hsmall
+  rw [hdec2] at h1
+  simp only [Prod.mk.injEq, and_true] at h1
+  subst h1
+  cases h2 with
+  | cons hab _ =>
+    have h3 : seqMatches idValue false wFac c.w.arch {} kept seq = true := hab
+    rw [← h0, h3] at hbad
+    simp at hbad
+
+/-- **KF-C01-undersized.** The byte 07 under a definition that gives hrv.time (a uint16 array) one byte decodes as the SCALAR
+`uint16 7` in an array field; the encoder accepts the decoded message and writes two bytes; decoding again returns
+`[]uint16{7}`: not the same message. -/
+theorem C01_e2e_reencode_fails_undersized : ¬ C01_e2e_reencode_full :=
+  reencode_fails_of (kfCfg false) inUndersized (decodeChain wOpts inUndersized).1
+    (encodeChain (kfCfg false) (backFiles (decodeChain wOpts inUndersized).1) 0).1.head!
+    (encodeChain (kfCfg false) (backFiles (decodeChain wOpts inUndersized).1) 0).2.1
+    [⟨78, [⟨0, 0x84, .sliceUint16 [7]⟩], []⟩]
+    (by decide +kernel) (by decide +kernel) (by decide +kernel) (kfCfg_ok false _ (by decide +kernel)) (by decide +kernel)
+    (by decide +kernel) (by decide +kernel) (by decide +kernel)
+
+example : decodeValues wOpts inUndersized = ([[⟨78, [⟨0, 0x84, .uint16 7⟩], []⟩]], none) ∧
+    kfUndersized ((decodeChain wOpts inUndersized).1.head!).msgs = true := by decide +kernel
+
+/-- **KF-C01-strpieces.** The bytes "a\0\xff\0" in a string field without profile entry decode as `[]string{"a"}` (two
+terminated segments counted, one survives the UTF-8 cleaning); written again they are "a\0" and decode as the scalar
+`"a"`. -/
+theorem C01_e2e_reencode_fails_pieces : ¬ C01_e2e_reencode_full :=
+  reencode_fails_of (kfCfg false) inPieces (decodeChain wOpts inPieces).1
+    (encodeChain (kfCfg false) (backFiles (decodeChain wOpts inPieces).1) 0).1.head!
+    (encodeChain (kfCfg false) (backFiles (decodeChain wOpts inPieces).1) 0).2.1
+    [⟨65280, [⟨1, 0x07, .string [0x61]⟩, ⟨2, 0x02, .uint8 1⟩], []⟩]
+    (by decide +kernel) (by decide +kernel) (by decide +kernel) (kfCfg_ok false _ (by decide +kernel)) (by decide +kernel)
+    (by decide +kernel) (by decide +kernel) (by decide +kernel)
+
+example : decodeValues wOpts inPieces = ([[⟨65280, [⟨1, 0x07, .sliceString [[0x61]]⟩, ⟨2, 0x02, .uint8 1⟩], []⟩]], none) ∧
+    kfPieces ((decodeChain wOpts inPieces).1.head!).msgs = true := by decide +kernel
+
+/-- **KF-C01-f64dev** (root: KF-C10-2). A developer field described as float64 with scale 2, offset 0 holds 1.5; the decoder
+returns the raw 1.5; the validator (real arithmetic: `Fit.ValidatorA.D`) takes the float64 for a scaled value and "restores"
+it to (1.5 + 0) · 2 = 3.0, which is what is written and comes back: validation did not retain the decoded value. -/
+theorem C01_e2e_reencode_fails_f64dev : ¬ C01_e2e_reencode_full :=
+  reencode_fails_of cfgArith inF64 (decodeChain wOpts inF64).1
+    (encodeChain cfgArith (backFiles (decodeChain wOpts inF64).1) 0).1.head!
+    (encodeChain cfgArith (backFiles (decodeChain wOpts inF64).1) 0).2.1
+    (decodeValues wOpts (encodeChain cfgArith (backFiles (decodeChain wOpts inF64).1) 0).2.1).1.head!
+    (by decide +kernel) (by decide +kernel) (by decide +kernel)
+    ⟨⟨Or.inl rfl, by show 0 < 4; decide, by show 4 ≤ 16; decide, fun h => by cases h⟩, by show 21158 < 65536; decide, by decide +kernel⟩
+    (by decide +kernel) (by decide +kernel) (by decide +kernel) (by decide +kernel)
+
+example : ((decodeChain wOpts inF64).1.head!).msgs.map proj ==
+      [⟨207, [⟨3, 2, .uint8 0⟩], []⟩,
+       ⟨206, [⟨0, 2, .uint8 0⟩, ⟨1, 2, .uint8 1⟩, ⟨2, 2, .uint8 0x89⟩, ⟨6, 2, .uint8 2⟩, ⟨7, 1, .int8 0⟩], []⟩,
+       ⟨20, [⟨3, 2, .uint8 70⟩], [⟨1, 0, .float64 0x3FF8000000000000⟩]⟩] ∧
+    kfF64Dev cfgArith.vo {} ((decodeChain wOpts inF64).1.head!).msgs = true ∧
+    ((encodeChain cfgArith (backFiles (decodeChain wOpts inF64).1) 0).1.head!.map literal).getLast? ==
+      some ⟨20, [⟨3, 2, .uint8 70⟩], [⟨1, 0, .float64 0x4008000000000000⟩]⟩ := by decide +kernel
+
+/-- the witnesses lie in the classes `C01_e2e_reencode` excludes, one each, and in no other -/
+example :
+    (kfUndersized ((decodeChain wOpts inUndersized).1.head!).msgs, kfPieces ((decodeChain wOpts inUndersized).1.head!).msgs,
+      kfF64Dev (kfCfg false).vo {} ((decodeChain wOpts inUndersized).1.head!).msgs) = (true, false, false) ∧
+    (kfUndersized ((decodeChain wOpts inPieces).1.head!).msgs, kfPieces ((decodeChain wOpts inPieces).1.head!).msgs,
+      kfF64Dev (kfCfg false).vo {} ((decodeChain wOpts inPieces).1.head!).msgs) = (false, true, false) ∧
+    (kfUndersized ((decodeChain wOpts inF64).1.head!).msgs, kfPieces ((decodeChain wOpts inF64).1.head!).msgs,
+      kfF64Dev cfgArith.vo {} ((decodeChain wOpts inF64).1.head!).msgs) = (false, false, true) := by decide +kernel
+
+/-- non-vacuity of `C01_e2e_reencode`: the stream of `inPieces` with both segments valid ("a\0b\0"; checksum ignored) meets
+every hypothesis — it decodes, the encoder accepts what was decoded, no class — and indeed comes back as it was decoded:
+`[]string{"a","b"}` in the field without profile entry -/
+def inGood : List Nat := inPieces.set 27 0x62
+def wOptsNoChk : Fit.DecApi.Opts := { wOpts with chk := false }
+example : (decodeChain wOptsNoChk inGood).2 = none ∧ (decodeChain wOptsNoChk inGood).1 ≠ [] ∧
+    (encodeChain (kfCfg false) (backFiles (decodeChain wOptsNoChk inGood).1) 0).2.2 = none ∧
+    (∀ f ∈ (decodeChain wOptsNoChk inGood).1, kfF64Dev (kfCfg false).vo {} f.msgs = false ∧ kfUndersized f.msgs = false ∧ kfPieces f.msgs = false) ∧
+    decodeValues wOptsNoChk inGood = ([[⟨65280, [⟨1, 0x07, .sliceString [[0x61], [0x62]]⟩, ⟨2, 0x02, .uint8 1⟩], []⟩]], none) ∧
+    decodeValues wOptsNoChk (encodeChain (kfCfg false) (backFiles (decodeChain wOptsNoChk inGood).1) 0).2.1 =
+      decodeValues wOptsNoChk inGood := by decide +kernel
 
 /-! ### KF-C01-boolarr (repaired in /repo 5da5106): the former witness -/
 
@@ -349,6 +677,11 @@ example : (decodeValues exO (encodeChain exCfg exFiles 0).2.1) =
       [⟨65280, [⟨1, 7, .sliceString [[0x61], [0x62]]⟩, ⟨2, 0x89, .float64 0x3FF8000000000000⟩], []⟩]], none) := by
   decide +kernel
 
+/-- … and it is exactly `normalSeq` (the deterministic form of `C01_e2e_roundtrip_exact_partial`): with header option
+"compressed timestamp" the second record's timestamp is in front, the first one's (written in full) where it was -/
+example : decodeValues exO (encodeChain exCfg exFiles 0).2.1 = ((encodeChain exCfg exFiles 0).1.map (normalSeq exFac exCfg.w), none) := by
+  decide +kernel
+
 /-- re-encoding, evaluated: the messages the example decodes to (turned back into encoder input: same numbers, base types,
 flags, values) are accepted unchanged, are in wire-normal form, and encode / decode to themselves -/
 def exBack : List FileIn :=
@@ -435,6 +768,121 @@ hypothesis; what the validator retained satisfies `msgsDescOK` (evaluated) -/
 example : keysKnown exFac = true ∧
     ((encodeChain exCfg exFiles 0).1.all fun kept => Wire.msgsDescOK [] (kept.map (toWire exCfg.w.arch))) = true := by
   decide +kernel
+
+/-! ### the normal form, rule by rule: what is a limit of the wire and what is decoder behaviour (audit C01-3) -/
+
+/-- **ROUND TRIP WITHOUT RULE (c)'s DROPPING OF EMPTY STRINGS (partial: a fourth class, KF-C01-emptystr).** Under the
+hypotheses of `C01_e2e_roundtrip_partial`, when moreover no retained string value read in array mode holds an EMPTY
+NUL-terminated segment (`kfEmpty`): every decoded sequence is the STRICT normal form of what validation retained
+(`strictValue`): string arrays come back with every one of their strings in place. The normal form of
+`C01_e2e_roundtrip_partial` (`normalValue`) identifies a string array with the array of its NON-EMPTY strings; that
+identification is the decoder's doing (the encoder writes the lone NUL of an empty string; `UnmarshalValue` skips it: "only
+if not an invalid string"), not something the wire forces — here it is an explicit class with a refuting witness
+(`C01_e2e_full_fails_emptystr`) instead of a rule of the normal form. -/
+theorem C01_e2e_roundtrip_strict_partial (c : Cfg) (o : Fit.DecApi.Opts) (files : List FileIn) (kepts : List (List Message))
+    (bytes : List Nat) (henc : encodeChain c files 0 = (kepts, bytes, none)) (hne : files ≠ [])
+    (hc : CfgOK c files) (ho : PlainOpts o) (hdom : ∀ kept ∈ kepts, inDomain o.fac kept = true)
+    (hsmall : bytes.length < 4294967296) (hkf : ∀ kept ∈ kepts, noKF o.fac kept = true)
+    (hem : ∀ kept ∈ kepts, kfEmpty o.fac kept = false) :
+    ∃ seqs, decodeValues o bytes = (seqs, none) ∧
+      AllMatch (fun kept ns => seqMatches strictValue false o.fac c.w.arch {} kept ns = true) kepts seqs := by
+  obtain ⟨seqs, h1, h2⟩ := C01_e2e_roundtrip_partial c o files kepts bytes henc hne hc ho hdom hsmall hkf
+  refine ⟨seqs, h1, ?_⟩
+  clear h1 henc hdom hkf
+  induction h2 with
+  | nil => exact AllMatch.nil
+  | @cons a b as bs hab _ ih =>
+    exact AllMatch.cons (seqMatches_strict o.fac c.w.arch a {} b (hem a (by simp)) hab)
+      (ih (fun k hk => hem k (List.mem_cons_of_mem _ hk)))
+
+/-- the strict round trip at full strength -/
+def C01_e2e_roundtrip_strict_full : Prop :=
+  ∀ (c : Cfg) (o : Fit.DecApi.Opts) (files : List FileIn) (kepts : List (List Message)) (bytes : List Nat),
+    encodeChain c files 0 = (kepts, bytes, none) → files ≠ [] → CfgOK c files → PlainOpts o →
+    (∀ kept ∈ kepts, inDomain o.fac kept = true) → bytes.length < 4294967296 →
+    ∃ seqs, decodeValues o bytes = (seqs, none) ∧
+      AllMatch (fun kept ns => seqMatches strictValue false o.fac c.w.arch {} kept ns = true) kepts seqs
+
+/-- `["a", "", "b"]` in field_description.field_name (a string ARRAY of the profile) -/
+def emptyStrFiles : List FileIn :=
+  [{ msgs := [⟨206, [kf 0 0x02 (.uint8 0), kf 1 0x02 (.uint8 1), kf 2 0x02 (.uint8 2),
+                     kf 3 0x07 (.sliceString [[0x61], [], [0x62]]) true], []⟩] }]
+
+/-- **KF-C01-emptystr.** The valid string array `["a", "", "b"]` passes validation (one valid string suffices), is written
+as 61 00 00 62 00 — the lone NUL of the empty string IS on the wire — and decodes as `["a", "b"]`: "b" has moved from place 2
+to place 1. The message lies in none of the other three classes; `C01_e2e_roundtrip_partial` holds for it only because its
+normal form drops empty strings. -/
+theorem C01_e2e_full_fails_emptystr : ¬ C01_e2e_roundtrip_strict_full := by
+  intro h
+  have henc : encodeChain (kfCfg false) emptyStrFiles 0 =
+      ((encodeChain (kfCfg false) emptyStrFiles 0).1, (encodeChain (kfCfg false) emptyStrFiles 0).2.1, none) := by decide +kernel
+  obtain ⟨seqs, h1, h2⟩ := h (kfCfg false) exO emptyStrFiles _ _ henc (by decide) (kfCfg_ok false _ (by decide +kernel))
+    ⟨rfl, rfl, rfl, rfl⟩ (by decide +kernel) (by decide +kernel)
+  have hd : decodeValues exO (encodeChain (kfCfg false) emptyStrFiles 0).2.1 =
+      ([[⟨206, [⟨0, 2, .uint8 0⟩, ⟨1, 2, .uint8 1⟩, ⟨2, 2, .uint8 2⟩, ⟨3, 7, .sliceString [[0x61], [0x62]]⟩], []⟩]], none) := by
+    decide +kernel
+  rw [hd] at h1
+  simp only [Prod.mk.injEq, and_true] at h1
+  subst h1
+  have hk : (encodeChain (kfCfg false) emptyStrFiles 0).1 = [emptyStrFiles.head!.msgs] := by decide +kernel
+  rw [hk] at h2
+  cases h2 with
+  | cons hab _ => revert hab; decide +kernel
+
+/-- the witness: the bytes written hold the lone NUL; the message is in the class `kfEmpty` and in no other -/
+example : (encodeChain (kfCfg false) emptyStrFiles 0).2.1.drop 36 = [0x61, 0, 0, 0x62, 0, 163, 222] ∧
+    (∀ kept ∈ (encodeChain (kfCfg false) emptyStrFiles 0).1, kfEmpty exFac kept = true ∧ noKF exFac kept = true) := by decide +kernel
+
+def boolFac : Fit.DecApi.Factory := [⟨20, 4, ⟨true, 0x00, true, false, false, []⟩⟩]
+def boolO : Fit.DecApi.Opts := { chk := true, exp := false, fac := boolFac }
+def boolFiles : List FileIn :=
+  [{ msgs := [⟨20, [⟨some { num := 4, baseType := 0x00, nameKnown := true, profileBool := true }, .uint8 7, false⟩], []⟩] }]
+
+/-- **Rule (d) of the normal form, shown on the model (kept in the normal form: the documented meaning of `typedef.Bool`).** A
+field whose profile type is bool, handed to the encoder with the `uint8` 7 — valid for the validator, which judges by the base
+type enum — is written as the byte 07 and decodes as `typedef.Bool` 255 (`proto.Bool`: "If v > 1, it will be treated as
+typedef.BoolInvalid"): as a BOOL every byte above 1 is the invalid value, and the wire carries no type tag that could say
+"this byte is a uint8, not a bool". The normal form (`normalValue` = `scalarOf … isBool`) says exactly this; nothing a bool
+can express is lost. The message meets every hypothesis of `C01_e2e_roundtrip_partial`. -/
+theorem C01_e2e_norm_bool_witness :
+    (encodeChain (kfCfg false) boolFiles 0).1 = [boolFiles.head!.msgs] ∧
+    decodeValues boolO (encodeChain (kfCfg false) boolFiles 0).2.1 = ([[⟨20, [⟨4, 0, .bool 255⟩], []⟩]], none) ∧
+    normalValue 0x00 true false (.uint8 7) = .bool 255 ∧ normalValue 0x00 true false (.uint8 1) = .bool 1 ∧
+    (∀ kept ∈ (encodeChain (kfCfg false) boolFiles 0).1, inDomain boolFac kept = true ∧ noKF boolFac kept = true) := by
+  decide +kernel
+
+/-! ### component expansion ON (reading (ii) of the property; audit X3): STATED, NOT PROVED -/
+
+/-- the field numbers of message `m` that are destinations of a component of some field of that message -/
+def compDestsOf (fac : Fit.DecApi.Factory) (m : Nat) : List Nat :=
+  (fac.filter (·.mesgNum == m)).flatMap fun e => e.info.comps.map (·.fieldNum)
+
+/-- a message decoded with expansion ON against the same record decoded with expansion off: after deleting the fields marked
+expanded, the same fields in the same order with the same attributes, and the same values except in fields that are
+destinations of a component of the message -/
+def OnMinusExpanded (fac : Fit.DecApi.Factory) (on off : Fit.DecApi.Msg) : Prop :=
+  on.header = off.header ∧ on.num = off.num ∧ on.devs = off.devs ∧
+  AllMatch (fun (f g : Fit.DecApi.DField) => f.num = g.num ∧ f.bt = g.bt ∧ f.known = g.known ∧ f.isBool = g.isBool ∧
+      f.array = g.array ∧ ((compDestsOf fac off.num).contains g.num = false → f.value = g.value))
+    (on.fields.filter (!·.expanded)) off.fields
+
+/-- **the expansion-on corollary (DESIGN §3 C01 reading (ii)), as a statement about the decoder-API model — NOT PROVED.** For
+every byte stream and every factory with an acyclic component graph that puts no components on file_id / field_description /
+developer_data_id: the `Next` / `Decode` loop with component expansion ON ends as the loop with expansion off does and returns
+the same sequences, message by message equal after deleting the fields marked expanded, except the values of component
+destinations (`OnMinusExpanded`); with `C01_e2e_actual_exact` this gives the round trip under expansion ON.
+What it needs and is not done here: (1) an invariant of `Fit.DecApi.expandAll` in the style of `C05_untouched` (C05's theorems
+are about the other expansion model, `Fit.Expand.decodeTail`, which has the real scale / offset arithmetic and sub-fields;
+`Fit.DecApi` has scale-1 components and no sub-fields); (2) a simulation of the decoder with expansion on by the decoder with
+expansion off through every function of the record loop (they differ only in `noteAcc`, the expansion step and the
+accumulator). On the REAL code the reading is tied for the standard factory by the `px=1` lines of family `rte2e` (default
+decoder, expansion ON, against the model's expansion-off answer with destinations masked). -/
+def C01_e2e_expansion_on : Prop :=
+  ∀ (o : Fit.DecApi.Opts) (bytes : List Nat), o.bo = false → o.ml = false → o.dl = false → Fit.DecApi.FacOK o.fac →
+    (∀ e ∈ o.fac, e.mesgNum = 0 ∨ e.mesgNum = 206 ∨ e.mesgNum = 207 → e.info.comps = []) → (∀ b ∈ bytes, b < 256) →
+    (decodeChain { o with exp := true } bytes).2 = (decodeChain { o with exp := false } bytes).2 ∧
+    AllMatch (fun (f g : Fit.DecApi.Fit) => f.hdr = g.hdr ∧ f.crc = g.crc ∧ AllMatch (OnMinusExpanded o.fac) f.msgs g.msgs)
+      (decodeChain { o with exp := true } bytes).1 (decodeChain { o with exp := false } bytes).1
 
 /-! ### the value layer, stated on its own -/
 
